@@ -379,4 +379,104 @@ def g8_stage_order(ctx):
             ctx.ok('G8', 'stage %d: %s' % (i + 1, g), 'dominance', site=order[i][2]['loc'], sample=i < 2)
 
 
-RULES = [('G1', g1_ladder), ('G2', g2_left_fold), ('G3', g3_tables), ('G4', g4_division), ('G5', g5_suffixes), ('G6', g6_implicit), ('G7', g7_cursor), ('G8', g8_stage_order)]
+def g9_prefix_sign(ctx):
+    """G9 a detached prefix sign: `- N` is N * -1 and `+ N` is N for every literal N (tabulated on positive, negative and
+    fractional literals); variables, percentages and money are wrapped in exactly one PrefixUnary of the matched operator;
+    every DataItem::unary with a numeric payload negates for Minus and keeps the value for Plus"""
+    from ..evalint import try_ev
+    from ..common import result_alternatives
+    ctx.rule('G9', 'prefix sign table', floor=8)
+    b = ctx.facts.one(r'syntax::unary::UnaryParser::parse_prefix_unary$')
+    ctx.fn(b)
+    tadt = ctx.facts.adts['types::TokenType']
+    tby = {v['discr']: v['name'] for v in tadt['variants']}
+    seen = set()
+    for v, inner, conds in result_alternatives(b):
+        if v != 'Ok' or inner[0] != 'aggr' or inner[1].endswith('SmartCalcAstType::None'):
+            continue
+        kind = None
+        for d, vv in conds:
+            if render(d).endswith('peek_token(parser) as Ok.0)') and render(d).startswith('discr(') and not isinstance(vv, tuple) and len(vv) == 1:
+                kind = tby.get(list(vv)[0])
+        if kind is None:
+            ctx.finding('G9', 'parse_prefix_unary/arm-not-classified', 'a result of parse_prefix_unary is not tied to one token kind: %s' % render(inner)[:80], site=b.loc)
+            continue
+        seen.add(kind)
+        if kind == 'Number':
+            val = None
+            for x in walk(inner):
+                if x[0] == 'aggr' and x[1].endswith('NumberItem::NumberItem'):
+                    val = x[2][0]
+            if val is None:
+                ctx.finding('G9', 'parse_prefix_unary/Number/shape', '`<sign> N` does not build a NumberItem: %s' % render(inner)[:100], site=b.loc)
+                continue
+            bad = []
+            for X in (5.0, -5.0, 0.25, -0.0, 1e21):
+                for op in ('-', '+'):
+                    def leaf(body, e, X=X, op=op):
+                        e2 = strip(e, transparent=False)
+                        r = render(e2)
+                        if r.endswith('as Number.0') or r.endswith('as Number.#0'):
+                            return X
+                        if e2[0] == 'call' and e2[1].endswith('::match_operator'):
+                            return {'__discr__': 1, '0': ord(op), '#0': ord(op)}
+                        return None
+                    got = try_ev(b, val, leaf)
+                    want = -X if op == '-' else X
+                    if got is None or got != want or (got == 0 and str(got) != str(want)):
+                        bad.append((op, X, got, want))
+            if bad:
+                op, X, got, want = bad[0]
+                ctx.finding('G9', 'parse_prefix_unary/Number/sign', 'a detached `%s` in front of the literal %s yields %s, expected %s (%d of 10 cells differ): the sign must negate, not be forced' % (op, X, got, want, len(bad)), site=b.loc)
+            else:
+                ctx.ok('G9', '`- N` = N * -1, `+ N` = N on 10 (sign, literal) cells', 'table', site=b.loc)
+        else:
+            wraps = [x for x in walk(inner) if x[0] == 'aggr' and x[1].endswith('SmartCalcAstType::PrefixUnary')]
+            opr = render(wraps[0][2][0]) if wraps else ''
+            if len(wraps) != 1:
+                ctx.finding('G9', 'parse_prefix_unary/%s/wrappers' % kind, '`<sign> %s` is wrapped in %d PrefixUnary nodes: the sign is applied %d times' % (kind.lower(), len(wraps), len(wraps)), site=b.loc)
+            elif 'match_operator(' not in opr:
+                ctx.finding('G9', 'parse_prefix_unary/%s/operator' % kind, '`<sign> %s` carries the operator %s, not the matched sign' % (kind.lower(), opr[:60]), site=b.loc)
+            else:
+                ctx.ok('G9', '`<sign> %s` = PrefixUnary(sign, operand), once' % kind.lower(), 'shape', site=b.loc)
+    for k in ('Number', 'Variable', 'Percent', 'Money'):
+        if k not in seen:
+            ctx.finding('G9', 'parse_prefix_unary/%s/missing' % k, 'a prefix sign in front of a %s is no longer handled' % k.lower(), site=b.loc)
+    # DataItem::unary: numeric payload kinds negate on Minus and keep on Plus
+    uadt = ctx.facts.adts.get('compiler::UnaryType')
+    if not uadt:
+        raise AnchorLost('enum compiler::UnaryType not found')
+    ud = {v['name']: v['discr'] for v in uadt['variants']}
+    for item in ('number::NumberItem', 'percent::PercentItem', 'money::MoneyItem', 'dynamic_type::DynamicTypeItem'):
+        ub = ctx.facts.one(r'^<compiler::%s as compiler::DataItem>::unary$' % item.replace('::', '::'))
+        ctx.fn(ub)
+        name = item.rsplit('::', 1)[1]
+        rows = {}
+        for a, conds in alternatives(ub, ub.ret_expr()):
+            which = None
+            for d, vv in conds:
+                if render(d) == 'discr(unary)' and not isinstance(vv, tuple) and len(vv) == 1:
+                    which = [n for n, dd in ud.items() if dd == list(vv)[0]]
+                    which = which[0] if which else None
+            payload = None
+            for x in walk(a):
+                if x[0] == 'aggr' and x[1].endswith('%s::%s' % (name, name)):
+                    payload = x[2][0]
+            if which and payload is not None:
+                vals = []
+                for X in (3.0, -2.5):
+                    def leaf(body, e, X=X):
+                        if render(strip(e, transparent=False)) in ('self.0', 'self.#0'):
+                            return X
+                        return None
+                    vals.append(try_ev(ub, payload, leaf))
+                rows[which] = vals
+        want = {'Minus': [-3.0, 2.5], 'Plus': [3.0, -2.5]}
+        for which, w in want.items():
+            if rows.get(which) == w:
+                ctx.ok('G9', '%s::unary(%s) %s' % (name, which, 'negates' if which == 'Minus' else 'keeps the value'), 'table', site=ub.loc, sample=False)
+            else:
+                ctx.finding('G9', '%s::unary/%s' % (name, which), '%s::unary(%s) maps (3, -2.5) to %s, expected %s' % (name, which, rows.get(which), w), site=ub.loc)
+
+
+RULES = [('G9', g9_prefix_sign), ('G1', g1_ladder), ('G2', g2_left_fold), ('G3', g3_tables), ('G4', g4_division), ('G5', g5_suffixes), ('G6', g6_implicit), ('G7', g7_cursor), ('G8', g8_stage_order)]
